@@ -1,5 +1,244 @@
 //! Translator targets owned by property C14.
+//!
+//! `c14emit` → `Generated/C14Emit.lean`: the statement-level facts the model's
+//! item loop over the lowered list (`Model/TarjanLir`) rests on:
+//!  * `Lowerer::program` (src/lir/lower.rs): in which order the groups of items
+//!    — generated clone / drop / eq functions, the script's own items — are put
+//!    into the vector that becomes `Lir.functions` (`programOrder`);
+//!  * `codegen` (src/codegen/mod.rs): every item is declared before the first
+//!    one is defined (`declareAllFirst`), and what the two arms of the
+//!    `for item in ir { match &item.kind … }` loop do, in source order
+//!    (`constantArm`, `functionArm`), and that `ModuleBuilder::finalize` starts
+//!    with `finalize_definitions` (`finalizeAtEnd`).
+//! Shapes that are not recognised are extraction failures, never defaults.
 #[allow(unused_imports)]
 use super::{Gen, Target};
+use crate::find;
+use quote::ToTokens;
+use std::collections::HashMap;
+use std::path::Path;
+use syn::visit::Visit;
 
-pub const TARGETS: &[Target] = &[];
+pub const TARGETS: &[Target] = &[("c14emit", "C14Emit", c14emit as Gen)];
+
+fn norm<T: ToTokens>(t: &T) -> String {
+    t.to_token_stream().to_string().replace(' ', "")
+}
+
+/// `Self::generate_clones(ctx)` ↦ `clones`, …
+fn generated_group(e: &syn::Expr) -> Option<&'static str> {
+    let s = norm(e);
+    match s.as_str() {
+        "Self::generate_clones(ctx)" => Some("clones"),
+        "Self::generate_drops(ctx)" => Some("drops"),
+        "Self::generate_eqs(ctx)" => Some("eqs"),
+        _ => None,
+    }
+}
+
+/// the groups a vector-valued expression stands for
+fn vec_value(e: &syn::Expr, env: &mut HashMap<String, Vec<&'static str>>, take: bool) -> Result<Vec<&'static str>, String> {
+    if let Some(g) = generated_group(e) {
+        return Ok(vec![g]);
+    }
+    let s = norm(e);
+    if s == "Vec::new()" {
+        return Ok(vec![]);
+    }
+    // `x`, `&mut x`
+    let name = s.trim_start_matches("&mut").to_string();
+    match env.get_mut(&name) {
+        Some(v) => Ok(if take { std::mem::take(v) } else { v.clone() }),
+        None => Err(format!("Lowerer::program: `{s}` is not a vector of items this translator knows")),
+    }
+}
+
+fn program_order(file: &syn::File) -> Result<Vec<&'static str>, String> {
+    let f = find::func(file, "program", Some("Lowerer"))?;
+    let mut env: HashMap<String, Vec<&'static str>> = HashMap::new();
+    let n = f.block.stmts.len();
+    for (i, st) in f.block.stmts.iter().enumerate() {
+        match st {
+            syn::Stmt::Local(l) => {
+                let name = match &l.pat {
+                    syn::Pat::Ident(p) => p.ident.to_string(),
+                    p => return Err(format!("Lowerer::program: unrecognised binding `{}`", norm(p))),
+                };
+                let init = l.init.as_ref().ok_or("Lowerer::program: binding without initialiser")?;
+                let v = vec_value(&init.expr, &mut env, true)?;
+                env.insert(name, v);
+            }
+            // the loop that lowers the script's own items into a vector
+            syn::Stmt::Expr(syn::Expr::ForLoop(fl), _) => {
+                if norm(&fl.expr) != "mir.items" {
+                    return Err(format!("Lowerer::program: unrecognised loop over `{}`", norm(&fl.expr)));
+                }
+                struct Push(Vec<String>, bool);
+                impl<'ast> Visit<'ast> for Push {
+                    fn visit_expr_method_call(&mut self, m: &'ast syn::ExprMethodCall) {
+                        if m.method == "push" {
+                            self.0.push(norm(&m.receiver));
+                        }
+                        syn::visit::visit_expr_method_call(self, m);
+                    }
+                    fn visit_expr_call(&mut self, c: &'ast syn::ExprCall) {
+                        if norm(&c.func) == "Self::item" {
+                            self.1 = true;
+                        }
+                        syn::visit::visit_expr_call(self, c);
+                    }
+                }
+                let mut p = Push(vec![], false);
+                p.visit_block(&fl.body);
+                if p.0.len() != 1 || !p.1 {
+                    return Err("Lowerer::program: the loop over mir.items is not `if let Some(f) = Self::item(..) { v.push(f) }`".into());
+                }
+                env.get_mut(&p.0[0])
+                    .ok_or(format!("Lowerer::program: items pushed onto unknown vector `{}`", p.0[0]))?
+                    .push("items");
+            }
+            syn::Stmt::Expr(syn::Expr::MethodCall(m), Some(_)) if m.method == "append" || m.method == "extend" => {
+                if m.args.len() != 1 {
+                    return Err(format!("Lowerer::program: `{}`", norm(m)));
+                }
+                let mut v = vec_value(&m.args[0], &mut env, true)?;
+                let recv = norm(&m.receiver);
+                env.get_mut(&recv)
+                    .ok_or(format!("Lowerer::program: `{recv}` is not a vector of items this translator knows"))?
+                    .append(&mut v);
+            }
+            syn::Stmt::Expr(syn::Expr::Struct(s), None) if i + 1 == n && norm(&s.path) == "Lir" => {
+                let fld = s
+                    .fields
+                    .iter()
+                    .find(|f| norm(&f.member) == "functions")
+                    .ok_or("Lowerer::program: `Lir { .. }` without `functions`")?;
+                return vec_value(&fld.expr, &mut env, false);
+            }
+            other => {
+                return Err(format!(
+                    "Lowerer::program: unrecognised statement `{}`",
+                    norm(other).chars().take(120).collect::<String>()
+                ));
+            }
+        }
+    }
+    Err("Lowerer::program does not end in `Lir { functions: … }`".into())
+}
+
+/// the recognised actions of one arm of the item loop, in source order
+struct Acts(Vec<&'static str>);
+impl<'ast> Visit<'ast> for Acts {
+    fn visit_expr_method_call(&mut self, m: &'ast syn::ExprMethodCall) {
+        // receiver first (source order), then this call
+        self.visit_expr(&m.receiver);
+        let recv = norm(&m.receiver);
+        let name = m.method.to_string();
+        match name.as_str() {
+            "define_function" => self.0.push("define"),
+            "finalize_definitions" => self.0.push("finalize"),
+            "get_finalized_function" => self.0.push("getFinalized"),
+            "get" if recv.ends_with(".functions") && norm(&m.args).contains("::generated::drop_") => self.0.push("lookupDrop"),
+            "insert" if recv.ends_with(".roto_constants") => self.0.push("store"),
+            _ => {}
+        }
+        for a in &m.args {
+            self.visit_expr(a);
+        }
+    }
+    fn visit_expr_call(&mut self, c: &'ast syn::ExprCall) {
+        for a in &c.args {
+            self.visit_expr(a);
+        }
+        // `(func_ptr)(constant.ptr)`: a call through a function pointer
+        if let syn::Expr::Paren(_) = &*c.func {
+            self.0.push("run");
+        } else {
+            self.visit_expr(&c.func);
+        }
+    }
+}
+
+fn lean_list(v: &[&str]) -> String {
+    format!("[{}]", v.iter().map(|x| format!(".{x}")).collect::<Vec<_>>().join(", "))
+}
+
+fn c14emit(repo: &Path) -> Result<String, String> {
+    let lw = find::parse(repo, "src/lir/lower.rs")?;
+    let cg = find::parse(repo, "src/codegen/mod.rs")?;
+    let order = program_order(&lw)?;
+
+    let f = find::func(&cg, "codegen", None)?;
+    // statements of `codegen`: the declare loop must come before the define loop
+    let mut declare_at = None;
+    let mut define_at = None;
+    let mut define_loop = None;
+    for (i, st) in f.block.stmts.iter().enumerate() {
+        if let syn::Stmt::Expr(syn::Expr::ForLoop(fl), _) = st {
+            if norm(&fl.expr) == "ir" {
+                let body = norm(&fl.body);
+                if body.contains("declare_function(") && !body.contains("define_function(") {
+                    declare_at.get_or_insert(i);
+                } else if body.contains("define_function(") {
+                    if define_at.is_some() {
+                        return Err("codegen: more than one loop defines functions".into());
+                    }
+                    define_at = Some(i);
+                    define_loop = Some(fl.clone());
+                }
+            }
+        }
+    }
+    let (declare_at, define_at, define_loop) = match (declare_at, define_at, define_loop) {
+        (Some(a), Some(b), Some(c)) => (a, b, c),
+        _ => return Err("codegen: the `for … in ir` declare / define loops were not found".into()),
+    };
+    let ms = find::matches_on(&define_loop.body, "&item.kind");
+    if ms.len() != 1 || define_loop.body.stmts.len() != 1 {
+        return Err("codegen: the define loop is not a single `match &item.kind`".into());
+    }
+    let mut const_arm = None;
+    let mut func_arm = None;
+    for arm in &ms[0].arms {
+        let p = norm(&arm.pat);
+        let mut a = Acts(vec![]);
+        a.visit_expr(&arm.body);
+        if arm.guard.is_some() {
+            return Err("codegen: guarded arm in the define loop".into());
+        }
+        if p.starts_with("ItemKind::Constant") {
+            const_arm = Some(a.0);
+        } else if p.starts_with("ItemKind::Function") {
+            func_arm = Some(a.0);
+        } else {
+            return Err(format!("codegen: unrecognised arm `{p}` in the define loop"));
+        }
+    }
+    let const_arm = const_arm.ok_or("codegen: no ItemKind::Constant arm")?;
+    let func_arm = func_arm.ok_or("codegen: no ItemKind::Function arm")?;
+    // the tail is `module.finalize()`, which starts with `finalize_definitions`
+    let tail = norm(find::tail_expr(&f.block)?);
+    let fin = find::func(&cg, "finalize", Some("ModuleBuilder"))?;
+    let fin_first = fin
+        .block
+        .stmts
+        .first()
+        .map(|s| norm(s).contains(".finalize_definitions()"))
+        .unwrap_or(false);
+    let finalize_at_end = tail == "module.finalize()" && fin_first;
+
+    let mut s = String::new();
+    s.push_str("/- GENERATED by /verif/extract (target c14emit) from src/lir/lower.rs, src/codegen/mod.rs — do not edit. -/\nimport RotoV.Model.TarjanLir\nnamespace RotoV.Gen.C14Emit\nopen RotoV.Tarjan\n\n");
+    s.push_str("/-- `Lowerer::program`: the groups of `Lir.functions`, in emission order -/\n");
+    s.push_str(&format!("def programOrder : List EmitGroup := {}\n\n", lean_list(&order)));
+    s.push_str("/-- `codegen`: the loop declaring every item precedes the loop defining them -/\n");
+    s.push_str(&format!("def declareAllFirst : Bool := {}\n\n", declare_at < define_at));
+    s.push_str("/-- `codegen`, arm `ItemKind::Constant` of the define loop, in source order -/\n");
+    s.push_str(&format!("def constantArm : List CgAct := {}\n\n", lean_list(&const_arm)));
+    s.push_str("/-- arm `ItemKind::Function` -/\n");
+    s.push_str(&format!("def functionArm : List CgAct := {}\n\n", lean_list(&func_arm)));
+    s.push_str("/-- `codegen` ends in `module.finalize()`, which starts with `finalize_definitions` -/\n");
+    s.push_str(&format!("def finalizeAtEnd : Bool := {finalize_at_end}\n"));
+    s.push_str("\nend RotoV.Gen.C14Emit\n");
+    Ok(s)
+}
